@@ -12,7 +12,7 @@ import random
 
 from .. import common, identlib
 from ..gen import cfggen
-from ..translate import hashflags, hashsrc
+from ..translate import argflags, hashflags, hashsrc
 
 def cfgbuild_refs(v):
     if isinstance(v, dict):
@@ -34,6 +34,8 @@ def prove(ctx):
     msgs = [hashflags.generate(common.REPO, common.LEAN, probe=identlib.loop_flag_probe(ctx)), hashsrc.generate(common.REPO, common.LEAN)]
     ctx.notes.append(f"translator(hashsrc): {msgs[1][1]}")
     ctx.count("translator", "hashsrc:" + ("translated" if msgs[1][1].startswith("translated") else "fallback"))
+    msgs.append(argflags.generate(common.REPO, common.LEAN, probe=identlib.inherit_rule_probe(ctx)))   # Generated/ArgFlags.lean: the driver derives the argument flags with it
+    ctx.notes.append(f"translator(argflags): {msgs[-1][1]}")
     ctx.notes.append(f"translator(hashflags): {msgs[0][1]}")
     common.check_proofs(ctx, MODULES, translate_msgs=msgs)
 
